@@ -1,4 +1,6 @@
 import GoDcp.Driver.Session
+import GoDcp.Props.C01
+import GoDcp.Props.C05
 /-!
 Run-time monitor for the session properties (C01, C03, C04, C05, C06, C14), evaluated
 on the REAL observation of every op line. It implements the statements of the
@@ -68,7 +70,8 @@ def noteDirtySettle (m : SMon) (vb seq : Nat) : SMon :=
   { m with dirtySettled := m.dirtySettled.set vb (max seq ((m.dirtySettled.get? vb).getD 0)) }
 
 /-- monitor step; `s` / `s'` = model state before / after the op -/
-def smonStep (m : SMon) (s s' : St) (ts : List String) (real : String) : SMon × String :=
+def smonStep (m : SMon) (s s' : St) (ts : List String) (real : String)
+    (caseStart : St) (caseOps : List Op) (sessStart : St) (sessOps : List Op) : SMon × String :=
   let parts := if real == "-" then [] else real.splitOn " ; "
   let words := parts.map fun p => (p.splitOn " ").filter (· ≠ "")
   -- C06: every offset / document in any observation is a valid resume point
@@ -236,7 +239,11 @@ def smonStep (m : SMon) (s s' : St) (ts : List String) (real : String) : SMon ×
       match d with
       | _ :: q :: _ =>
         if m.unsettled.any (fun (_, v', q') => v' == vb && q' ≤ q) then
-          "KF F3 an absorbed event moved the position past a delivered-but-unacknowledged event and the save persisted it"
+          -- known finding only when the history contains the pattern excluded by `C01b_partial`
+          if KF.C01_overtake caseStart caseOps then
+            "KF F3 an absorbed event moved the position past a delivered-but-unacknowledged event and the save persisted it"
+          else if !KF.srvMonotone caseStart caseOps then "ok"   -- the server broke its own contract (seqnos not increasing): outside the quantifier
+          else "FAIL C01.stored-past-unsettled"
         else "ok"
       | _ => "ok"
     -- C05 / C14: a save with nothing changed performs no write
@@ -255,7 +262,9 @@ def smonStep (m : SMon) (s s' : St) (ts : List String) (real : String) : SMon ×
       s.cfg.lo ≤ vb && vb ≤ s.cfg.hi && q > ((s'.store.get? vb).map (·.seq)).getD 0
     let v3 :=
       if completes && s.isOpen && !s.cfg.readOnly && !lagging.isEmpty then
-        if lagging.any (fun (vb, _) => (curDirty s).contains vb) && !s.anyDirty then
+        -- known finding only when the session history contains a pattern excluded by `C05_partial`
+        if !(KF.C05_flag sessStart sessOps || KF.C05_unmark sessStart sessOps) then "FAIL C05.settled-not-durable"
+        else if lagging.any (fun (vb, _) => (curDirty s).contains vb) && !s.anyDirty then
           "KF F1 a vBucket advanced only by seqno-advanced / system events is marked dirty but the flag stays down: the save is skipped"
         else
           "KF F2 an acknowledgement that landed between a save's dump and its unmark (or during an overlapping save) lost its dirty mark: progress stays unsaved"
